@@ -114,6 +114,15 @@ func (s *svcScenario) step() (string, string) {
 				delete(s.pushers, d.Key)
 			}
 		}
+		if !cl.SDK && cl.Model != nil && r.Intn(12) == 0 {
+			// the client registers again before this sync (a reconnect: its ClientMessage reaches
+			// the server a second time); nothing about its datatypes may change through that
+			w.c.Step("%s registers again", cl.Alias)
+			if err := cl.Register(); err != nil {
+				return "re-registration-refused", fmt.Sprintf("client %s registered again with an unchanged ClientMessage and was refused: %v", cl.Alias, err)
+			}
+			w.c.Count("re_registrations", 1)
+		}
 		if _, sig, msg := w.sync(cl); sig != "" {
 			return sig, msg
 		}
